@@ -28,9 +28,11 @@ CHECKS.update({
 CHECKS.update({
  "C02": ("proof", "Theorems: the closure a deletion gathers through the incidence caches equals the brute-force closure over the stored definitions of not-deleted entities whenever the caches "
          "are exact (and is that scan literally when a kind is off); in deferred mode delete_vertex/edge/face/cell flag exactly the entity and its closure, leave all definitions, other flags, "
-         "property values and modes untouched and advance the counters by the number of newly flagged entities; counters stay exact. Immediate/fast modes (renumbering) are tied by lock step "
-         "and the identity-token closure oracle in all four modes, not yet proved.",
-         "Coq proof (closure = brute force; deferred deletion exact) + lock-step correspondence in all modes + closure oracle", "6 C02"),
+         "property values and modes untouched and advance the counters by the number of newly flagged entities; counters stay exact. Immediate index-shifting mode: survivors = everything outside the "
+         "closure, definitions read through the shift maps. Immediate fast mode: core = swap-with-last then removal, survivors renumbered by a bijection that definitions, flags and property values follow; "
+         "mode independence (fast / shifting / deferred: same survivors, isomorphic results, equal counts); the invariant holds along every immediate-mode history. All modes also tied by lock step "
+         "and the identity-token closure oracle.",
+         "Coq proof (closure = brute force; deferred, shifting and fast deletion exact; mode independence; history invariant) + lock-step correspondence in all modes + closure oracle", "6 C02"),
  "C05": ("proof", "Theorems about the cursor machines of every iterator/circulator class for arbitrary lists, max_laps and step counts (forward trace = list x laps, end = advanced begin, prev/next inverse "
          "inside the valid range, empty centre invalid, entity iterators = live entities ascending once), builder lists = incident sets under cache exactness. Refuted with witness: valid() after stepping "
          "back from end (known finding D11). Tie: lock step of every accessor on generated states; brute-force oracles.",
@@ -74,12 +76,13 @@ CHECKS.update({
          "Coq invariant by induction over registry histories + refutation witness; lock-step correspondence; invariant oracle under ASan/UBSan", "6 C14"),
 })
 CHECKS.update({
- "C06": ("proof", "OVMB: byte-level writer model equal to the real writer byte for byte; reader model in lock step on mutated files; round-trip / spec-decoding / re-encoding theorems as far as proved (see evidence notes for _partial). "
+ "C06": ("proof", "OVMB: byte-level writer model equal to the real writer byte for byte; reader model in lock step on mutated files; the round trip decode(encode m) = m is PROVED for every mesh (implementation reader and the reader written from the format description), "
+         "as is the reading of every member of an explicit family of re-encodings (split spans, wider integers, variable valence, handle offsets, skippable chunks). "
          "OVM ASCII: token-level writer/reader models; round trip proved for meshes without properties (partial), integer printing/parsing round trip, refuted corners recorded (pending deletions D7, text-format limits). "
          "Tie: write->read->compare and byte-exact writer comparison on generated meshes with all property types.",
          "Coq proof over byte/token-level models of writer and reader + lock-step correspondence on generated and mutated files + round-trip oracle", "6 C06"),
  "C07": ("proof", "Theorems: the OVMB reader model (decoder primitives need()-guarded as in the repaired code, explicit wrap-around arithmetic, fuelled chunk loop) never reaches the out-of-bounds outcome and success implies every stored handle in range "
-         "and every property sized; the ASCII reader model (istream-lite validated token-wise against std::istringstream) is total (no spin, no UB) under an explicit allocation bound and success implies a valid mesh. "
+         "and every property sized, in every reader configuration (incl. hexahedral class with re-ordering); the ASCII reader model (istream-lite validated token-wise against std::istringstream) is total (no spin, no UB) under an explicit allocation bound and success implies a valid mesh. "
          "Memory safety of the C++ object graph itself is observed by ASan/UBSan/_GLIBCXX_ASSERTIONS on ~14k (OVMB) + ~17k (ASCII) mutated inputs per quick run, not proved.",
          "Coq totality/validity proofs over reader models + lock-step correspondence on field-aware mutations, truncations, noise under sanitizers", "6 C07"),
  "C18": ("proof", "Theorems on the OVMB reader/writer models: every strict prefix of the writer's output is rejected; inconsistent framing fields are rejected per field class; a stream failing after k bytes never yields Ok. "
